@@ -466,6 +466,15 @@ def cmdLedger (args : List String) : String :=
     | (i, .error k) => s!"error {i} {k}"
   | _ => "bad-request"
 
+/-- `static <nglobals> <hex s-expression>`: the verdict of the static rules -/
+def cmdStatic (args : List String) : String :=
+  match args with
+  | [ng, hx] =>
+    match (stringOfHex hx).bind DDP.Spec.parseSExp with
+    | some sx => if DDP.Spec.checkProgram (DDP.Spec.decProgram sx) ng.toNat! then "accept" else "reject"
+    | none => "bad-sexpr"
+  | _ => "bad-request"
+
 def dispatch (line : String) : String :=
   match (line.splitOn " ").filter (· ≠ "") with
   | "scan" :: args => cmdScan args
@@ -491,6 +500,7 @@ def dispatch (line : String) : String :=
   | "sortaliases" :: args => cmdSortAliases args
   | "resolve" :: args => cmdResolve args
   | "ledger" :: args => cmdLedger args
+  | "static" :: args => cmdStatic args
   | _ => "bad-request"
 
 
